@@ -63,7 +63,7 @@ pub proof fn lemma_lag0(ts: Seq<f64>, m: real, k: int) requires 0 <= k ensures r
 }
 '''
 NRA2 = [Lemma('nra_div_nonzero', 'n b', ['(> n 0)', '(distinct b 0)'], ['(distinct (/ b n) 0)']),
-        Lemma('nra_ratio', 'n a b', ['(> n 0)', '(distinct b 0)'], ['(= (/ (* (/ 1 n) a) (/ b n)) (/ (* (/ 1 n) a) (* (/ 1 n) b)))'])]
+        Lemma('nra_ratio', 'n b', ['(> n 0)'], ['(= (/ b n) (* (/ 1 n) b))'])]
 acf = Fn(T + 'acf', ret='r', level='L1', requires=[MACH, 'C13.lag:: iabs(k as int) <= ts@.len()'],
          ensures=['C13.acf.ratio:: acov_def(ts@, 0) != 0real ==> rv(r) == acov_def(ts@, k as int) / acov_def(ts@, 0)'],
          rewrites=[('(k.abs() as usize..n).into_iter().map(|i|', '({ let prods_: Vec<f64> = (k.abs() as usize..n).into_iter().map(|i|', 'R6b: bind the collected products of `.map(..).sum()`'),
@@ -77,7 +77,7 @@ acf = Fn(T + 'acf', ret='r', level='L1', requires=[MACH, 'C13.lag:: iabs(k as in
                    ('numerator / denominator', '({ proof { let nr_ = n as real; let m_ = rv(ts_mean); let a_ = rlag(ts@, m_, iabs(k as int), n - iabs(k as int)); let b_ = rcsq(ts@, m_, n as int); '
                     'assert(m_ == rsum(ts@, n as int) / nr_); assert(rv(numerator) == (1real / nr_) * a_); assert(rv(denominator) == b_ / nr_); '
                     'assert(acov_def(ts@, k as int) == (1real / nr_) * a_); assert(iabs(0) == 0); assert(acov_def(ts@, 0) == (1real / nr_) * b_); '
-                    'if b_ != 0real { nra_ratio(nr_, a_, b_); nra_div_nonzero(nr_, b_); } else { assert((1real / nr_) * b_ == 0real) by(nonlinear_arith) requires b_ == 0real; } } '
+                    'if b_ != 0real { nra_ratio(nr_, b_); nra_div_nonzero(nr_, b_); } else { assert((1real / nr_) * b_ == 0real) by(nonlinear_arith) requires b_ == 0real; } } '
                     'numerator / denominator })', 'RX-hint: proof block before the final division')],
          closures={1: {'params': 'i: usize', 'ret': 'o: f64', 'requires': ['iabs(k as int) <= i < n'],
                        'ensures': ['o == f_mul(f_sub(ts@[i as int], ts_mean), f_sub(ts@[i - iabs(k as int)], ts_mean))']},
